@@ -36,6 +36,11 @@ def mul(*xs):
             out += list(x[1])
         else:
             out.append(x)
+    # distribute over sums: polynomial normal form
+    for i, x in enumerate(out):
+        if x[0] == "add":
+            rest = out[:i] + out[i + 1:]
+            return add(*[mul(t, *rest) for t in x[1]])
     prod = 1
     for x in out:
         if x[0] == "int":
@@ -69,7 +74,7 @@ def mod(a, b):
 
 
 def sub(a, b):
-    return ("sub", a, b)
+    return add(a, mul(I(-1), b))
 
 
 def gt(a, b):
@@ -99,6 +104,9 @@ class Eval:
             return I(int(e["v"]))
         if k == "Ref" and e.get("n") in env:
             return env[e["n"]]
+        el = self.element(e)
+        if el is not None:
+            return env.get(el, S("?" + el))
         if k == "Ref" and "ev" in e:
             return I(int(e["ev"]))
         if k == "Bin" and not e.get("asg"):
@@ -131,6 +139,18 @@ class Eval:
             return S("?" + e.get("n", ""))
         return None
 
+    def element(self, e):
+        """'name[k]' for a constant-index element of a tracked local array, else None"""
+        e = strip(e)
+        base = idx = None
+        if e.get("k") == "Idx":
+            base, idx = strip(e["c"][0]), strip(e["c"][1])
+        elif e.get("k") == "OpCall" and e.get("op") == "[]" and len(e.get("a") or []) == 2:
+            base, idx = strip(e["a"][0]), strip(e["a"][1])
+        if base is not None and base.get("k") == "Ref" and base.get("n") in self.locals and idx.get("k") == "Int":
+            return "%s[%d]" % (base["n"], int(idx["v"]))
+        return None
+
     def run(self, stmts, env):
         """Evaluate a statement list; returns the environment afterwards (a new dict)."""
         env = dict(env)
@@ -140,8 +160,8 @@ class Eval:
                 for v in st["vars"]:
                     if v["n"] in self.locals:
                         env[v["n"]] = self.term(v["init"], env) if isinstance(v.get("init"), dict) else S("uninit:" + v["n"])
-            elif k == "Bin" and st.get("asg") and strip(st["c"][0]).get("k") == "Ref" and strip(st["c"][0])["n"] in self.locals:
-                nm = strip(st["c"][0])["n"]
+            elif k == "Bin" and st.get("asg") and (self.element(st["c"][0]) or (strip(st["c"][0]).get("k") == "Ref" and strip(st["c"][0])["n"] in self.locals)):
+                nm = self.element(st["c"][0]) or strip(st["c"][0])["n"]
                 rhs = self.term(st["c"][1], env)
                 if st["op"] == "=":
                     env[nm] = rhs
@@ -151,6 +171,10 @@ class Eval:
                     env[nm] = sub(env[nm], rhs)
                 elif st["op"] == "*=" and env.get(nm) is not None and rhs is not None:
                     env[nm] = mul(env[nm], rhs)
+                elif st["op"] == "/=" and env.get(nm) is not None and rhs is not None:
+                    env[nm] = div(env[nm], rhs)
+                elif st["op"] == "%=" and env.get(nm) is not None and rhs is not None:
+                    env[nm] = mod(env[nm], rhs)
                 else:
                     env[nm] = None
             elif k == "Un" and strip(st["c"][0]).get("k") == "Ref" and strip(st["c"][0])["n"] in self.locals and ("++" in (st.get("op") or "") or "--" in (st.get("op") or "")):
